@@ -49,8 +49,9 @@ def run_one(prop, tier, repo, replay=None):
     t0 = time.time()
     try:
         mod = importlib.import_module('.rules.%s' % prop.lower(), package='sa')
-    except ImportError as e:
-        print('ANALYSIS-ERROR property=%s no checker: %s' % (prop, e))
+    except Exception as e:      # a broken checker is an analysis error, never a verdict
+        traceback.print_exc()
+        print('ANALYSIS-ERROR property=%s checker cannot be loaded: %s: %s' % (prop, type(e).__name__, e))
         return 2
     try:
         model = Model(repo)
